@@ -117,6 +117,7 @@ func buildCorpus(repo, work string, tier string, seed uint64, ngen int, o *hxlib
 	rng := hxlib.NewRng(seed)
 	add := func(j *Job) {
 		j.Variant = len(jobs) % 3
+		j.Index = len(jobs)
 		if j.Heavy {
 			// the heavy examples are compiled with default parameters only
 			// (mascot under the GMW target needs > 17 GB)
